@@ -57,7 +57,7 @@ func parent() {
 		"query-string oddities; HTTP-level oddities (unknown method, missing / wrong Content-Length, chunked, Expect, HTTP/1.0, huge header, unknown path, garbage request line). " +
 		"non-trivial = distinct (state, endpoint, class, materialised variant); per case: panic log by client address, well-formed answer (error where the message cannot be valid), honest continuation on the same connection with at most one rejected start, periodic handshake + GET on a new connection")
 	r.Assume("a connection closed after a well-formed response that carries `Connection: close` (or after net/http's own 400/431 answer to malformed HTTP) is HTTP's doing, not a dropped connection")
-	r.Assume("garbage *frames* on a verified session are not sent here (the session layer closes such connections by design, C05); only well-formed frames with hostile contents")
+	r.Assume("frames that do not authenticate are not sent on a verified session (the session layer closes such connections by design, C05); what is sent are well-formed frames with hostile contents and correctly sealed frames of more than the 1024 bytes the specification allows (class frame-size: the accessory may serve them or close the connection, it may not panic, die or stop serving)")
 	r.Assume("panics whose site is in package characteristic are C12's root cause; they are reported with the prefix c12-root:")
 	r.Watchdog(time.Duration(r.Pick(30, 120)) * time.Minute)
 
